@@ -6,7 +6,7 @@ from fractions import Fraction
 import numpy as np
 
 from symx.runner import Family, arr, increasing, run_check
-from checks.rfafam import WINDOW, ALL6, shape_configs, symbolic_param_configs, inputs, make, effective_a, num
+from checks.rfafam import WINDOW, ALL6, shape_configs, symbolic_param_configs, large_configs, inputs, make, effective_a, num
 
 
 class NoOvershoot(Family):
@@ -17,8 +17,8 @@ class NoOvershoot(Family):
 
     def configs(self, tier):
         if tier == "quick":
-            return shape_configs(tier, WINDOW, sym_x_max_m=3, max_m=4, ns=(2, 3, 4), adaptive_max_m=4) + symbolic_param_configs(tier)
-        return shape_configs(tier, WINDOW, sym_x_max_m=4, max_m=6, ns=(2, 3, 4, 6), adaptive_max_m=5) + symbolic_param_configs(tier)
+            return shape_configs(tier, WINDOW, sym_x_max_m=3, max_m=4, ns=(2, 3, 4), adaptive_max_m=4) + symbolic_param_configs(tier) + large_configs(tier)
+        return shape_configs(tier, WINDOW, sym_x_max_m=4, max_m=6, ns=(2, 3, 4, 6), adaptive_max_m=5) + symbolic_param_configs(tier) + large_configs(tier)
 
     def run(self, ctx, inst, strategy, m, n, grid, p):
         x, y, X, ys = inputs(ctx, m, grid)
